@@ -23,8 +23,14 @@ pub struct Case {
     pub rxparam: Option<(u8, u32)>,
     /// RXTimingSetupReq delay
     pub rxdelay: Option<u8>,
+    /// NewChannelReq (index, frequency) sent before the DlChannelReq
+    #[serde(default)]
+    pub newchannel: Option<(u8, u32)>,
     /// DlChannelReq (index, frequency)
     pub dlchannel: Option<(u8, u32)>,
+    /// NewChannelReq (index, frequency) sent after the DlChannelReq: redefines the channel
+    #[serde(default)]
+    pub redefine: Option<(u8, u32)>,
     pub draw: u32,
     /// join transaction instead of a data uplink
     pub join: bool,
@@ -55,9 +61,17 @@ fn setup_cmds(c: &Case) -> Vec<Vec<u8>> {
     if let Some(d) = c.rxdelay {
         v.push(vec![0x08, d]);
     }
+    if let Some((i, f)) = c.newchannel {
+        let fb = cmds::freq_bytes(f);
+        v.insert(0, vec![0x07, i, fb[0], fb[1], fb[2], 0x50]);
+    }
     if let Some((i, f)) = c.dlchannel {
         let fb = cmds::freq_bytes(f);
         v.push(vec![0x0A, i, fb[0], fb[1], fb[2]]);
+    }
+    if let Some((i, f)) = c.redefine {
+        let fb = cmds::freq_bytes(f);
+        v.push(vec![0x07, i, fb[0], fb[1], fb[2], 0x50]);
     }
     v
 }
@@ -170,6 +184,12 @@ pub fn eval(c: &Case) -> Vec<(String, String)> {
     } else {
         // downlink frequency of the channel whose uplink frequency was used
         o.before.region.channels.iter().flatten().find(|ch| ch.frequency == tx.freq).map(|ch| ch.dl_frequency.unwrap_or(ch.frequency))
+    };
+    // a channel redefined by NewChannelReq starts without a downlink frequency of its own (the reference
+    // model of C08 and Semtech's stack agree): its RX1 is on the new uplink frequency
+    let want_rx1_freq = match c.redefine {
+        Some((_, f3)) if tx.freq == f3 => Some(f3),
+        _ => want_rx1_freq,
     };
     match want_rx1_freq {
         Some(f) if f != o.rx[0].freq => v.push((
@@ -302,7 +322,7 @@ pub fn run(tier: Tier, replay: Option<&str>) {
         let (def_f, def_dr) = rr::rx2_default(region);
         let draws: Vec<u32> = if fixed { (0..64).collect() } else { (0..8).collect() };
         for front in fronts {
-            let base = |dev: DevCfg| Case { front: front.into(), dev, dr: None, rxparam: None, rxdelay: None, dlchannel: None, draw: 0, join: false, dr_between: None, tx_done_ms: 0 };
+            let base = |dev: DevCfg| Case { front: front.into(), dev, dr: None, rxparam: None, rxdelay: None, newchannel: None, dlchannel: None, redefine: None, draw: 0, join: false, dr_between: None, tx_done_ms: 0 };
             let abp = DevCfg::abp(region);
             // P1: data rate x RX1 offset x channel choice
             for &d in &drs {
@@ -324,7 +344,12 @@ pub fn run(tier: Tier, replay: Option<&str>) {
                     for ts in [0u32, 7, 1000] {
                         let mut dev = abp.clone();
                         dev.offset_ms = offs;
-                        cases.push(Case { rxdelay: Some(del), tx_done_ms: ts, ..base(dev) });
+                        cases.push(Case { rxdelay: Some(del), tx_done_ms: ts, ..base(dev.clone()) });
+                        if front != "nb" && offs > 5 && ts == 0 {
+                            // async boards may declare a window buffer that differs from the lead time
+                            dev.duration_ms = 5;
+                            cases.push(Case { rxdelay: Some(del), tx_done_ms: ts, ..base(dev) });
+                        }
                     }
                 }
             }
@@ -343,6 +368,16 @@ pub fn run(tier: Tier, replay: Option<&str>) {
                         for draw in 0..8u32 {
                             cases.push(Case { dlchannel: Some((idx, f)), draw, ..base(abp.clone()) });
                         }
+                    }
+                }
+            }
+            // P8: create a channel, give it a downlink frequency, redefine it: the uplinks on the new frequency
+            // have their RX1 there as well
+            if !fixed {
+                let fq = cmds::freqs(region);
+                for idx in [3u8, 8] {
+                    for draw in 0..16u32 {
+                        cases.push(Case { newchannel: Some((idx, fq[3])), dlchannel: Some((idx, fq[2])), redefine: Some((idx, fq[3] + 400_000)), draw, ..base(abp.clone()) });
                     }
                 }
             }
@@ -395,7 +430,7 @@ pub fn run(tier: Tier, replay: Option<&str>) {
     let coverage = json!({
         "evaluations": ctx.evals(),
         "distinct_nontrivial": nontrivial.load(Ordering::Relaxed),
-        "rule": "seven full sub-products per region and front-end (nb, async, async+Class C), each case a fresh real device brought into the configuration by authentic RXParamSetupReq / RXTimingSetupReq / DlChannelReq downlinks and set_datarate: (P1) every region-defined uplink data rate x RX1DROffset 0..7 x first RNG draw (all 64 for the 72-channel plans); (P2) RXTimingSetupReq delay 0..15 x board offset/lead {0,15,50,100} x TX end time; (P3) all 16 RX2 data rate values x 2 frequencies x lowest/highest uplink rate; (P4) DlChannelReq on channels 0..3 x 2 frequencies x draws; (P5) joins under join-bias settings x draws; (P6, nb) set_datarate between TX and the windows; (P7) a re-join on a default channel after DlChannelReq remapped its downlink frequency. non-trivial = cases with an installed override or a join",
+        "rule": "eight full sub-products per region and front-end (nb, async, async+Class C), each case a fresh real device brought into the configuration by authentic RXParamSetupReq / RXTimingSetupReq / DlChannelReq downlinks and set_datarate: (P1) every region-defined uplink data rate x RX1DROffset 0..7 x first RNG draw (all 64 for the 72-channel plans); (P2) RXTimingSetupReq delay 0..15 x board offset/lead {0,15,50,100} x TX end time; (P3) all 16 RX2 data rate values x 2 frequencies x lowest/highest uplink rate; (P4) DlChannelReq on channels 0..3 x 2 frequencies x draws; (P5) joins under join-bias settings x draws; (P6, nb) set_datarate between TX and the windows; (P7) a re-join on a default channel after DlChannelReq remapped its downlink frequency; (P8) NewChannelReq, DlChannelReq, then a NewChannelReq redefining the same channel. non-trivial = cases with an installed override or a join",
         "samples": [serde_json::to_value(&cases[0]).unwrap(), serde_json::to_value(&cases[cases.len() / 2]).unwrap(), serde_json::to_value(cases.last().unwrap()).unwrap()],
         "exhaustive": true,
         "regions": regions,
